@@ -3,7 +3,8 @@ from __future__ import annotations
 import ast
 import functools
 import itertools
-from collections.abc import Iterable, Mapping, Sequence
+import re
+from collections.abc import Generator, Iterable, Mapping, Sequence
 from numbers import Number
 from typing import (
     Any,
@@ -376,6 +377,23 @@ class ConstraintOperatorResolver(OperatorResolver):  # pylint: disable=unnecessa
     These operators describe a regular algebra rather than a Wikinson formula
     one.
     """
+
+    def resolve(
+        self, token: Token
+    ) -> Generator[tuple[Token, Iterable[Operator]], None, None]:
+        # Adjacent operator characters arrive as one token (e.g. `=-` in
+        # `x = -1`): read them one by one, with a run of signs as the single
+        # sign of its parity.
+        symbol = re.sub(
+            r"[+\-]{2,}",
+            lambda m: "-" if m.group(0).count("-") % 2 else "+",
+            token.token,
+        )
+        if symbol in self.operator_table:
+            yield self._resolve(token, symbol)
+            return
+        for char in symbol:
+            yield self._resolve(token, char)
 
     @property
     def operators(self) -> list[Operator]:
